@@ -64,6 +64,35 @@ Lemma exfl_sup_fit_ranks :
           [false; false; false; false; false] [2; 3; 1; 4; 0]%nat.
 Proof. vm_compute. reflexivity. Qed.
 
+(* the hypotheses of the optimum-path-forest theorem hold on this instance *)
+Definition fw_ok (zero top : float) (n : nat) (w : nat -> nat -> float) : bool :=
+  forallb (fun p => forallb (fun q =>
+    Nat.eqb p q || (negb (PrimFloat.ltb (w p q) zero) && PrimFloat.ltb (w p q) top)) (seq 0 n)) (seq 0 n).
+
+Lemma fw_ok_sound zero top n w : fw_ok zero top n w = true ->
+  forall p q, p < n -> q < n -> p <> q ->
+    PrimFloat.ltb (w p q) zero = false /\ PrimFloat.ltb (w p q) top = true.
+Proof.
+  intros H p q Hp Hq Hne. unfold fw_ok in H. rewrite forallb_forall in H.
+  specialize (H p ltac:(apply in_seq; lia)). rewrite forallb_forall in H.
+  specialize (H q ltac:(apply in_seq; lia)).
+  destruct (Nat.eqb_spec p q); [contradiction|]. cbn [orb] in H.
+  apply andb_true_iff in H. destruct H as [H1 H2]. apply negb_true_iff in H1. now split.
+Qed.
+
+Lemma exfl_opf_premises :
+  PrimFloat.ltb 0 fmax = true /\
+  (forall p q, p < length ex_labels -> q < length ex_labels -> p <> q ->
+     PrimFloat.ltb (exfl_w p q) 0 = false /\ PrimFloat.ltb (exfl_w p q) fmax = true) /\
+  (exists s, s < length ex_labels /\
+     nth s (n_status (find_prototypes PrimFloat.ltb fmax (length ex_labels) exfl_w
+                        (nodes_init 0%float ex_labels))) false = true).
+Proof.
+  split; [reflexivity|]. split.
+  - apply fw_ok_sound. vm_compute. reflexivity.
+  - exists 2. split; [cbn; lia|]. vm_compute. reflexivity.
+Qed.
+
 (* ---------- C17: the closed loop of LearnFullExample.v with binary64 accuracies ---------- *)
 
 Definition exfl_learn := learn_full Z.ltb 0%Z 1000%Z exf_w FAcc 3 exf_draws exf_st.
